@@ -364,11 +364,6 @@ func runC06(rc *RunCtx) {
 			if n := len(srvEnd.Wrote); n != 0 {
 				rc.Failf("probe-answered:"+cls, "probe %d (%s): server wrote %d bytes to an unauthenticated client", p.k, p.desc, n)
 			}
-			for _, d := range w.Dials {
-				if d.Port == 8000+p.k {
-					rc.Failf("probe-dialed:"+cls, "probe %d (%s): target dialed for unauthenticated input", p.k, p.desc)
-				}
-			}
 			if gotRst && p.lastWrite+skew+time.Microsecond >= rstRecv {
 				// the client was still writing at the instant of the close (clock ticks can
 				// push a trickled write onto the deadline): unread data legitimately resets
@@ -385,36 +380,36 @@ func runC06(rc *RunCtx) {
 			if int(srvEnd.NRead) != p.sent && !gotRst {
 				rc.Failf("probe-not-fully-read:"+cls, "probe %d (%s): server read %d of %d bytes before closing", p.k, p.desc, srvEnd.NRead, p.sent)
 			}
-			var want time.Duration
-			if p.didFin && p.behav == 1 {
-				want = p.finAt
-			} else {
-				want = p.connectAt + srv.Timeout
-			}
+			// Not before the client closes or the handshake timeout elapses; at the
+			// deadline at the latest (a server that keeps a half-closed probe until the
+			// deadline is as silent as one that closes on the client's FIN).
 			// behav 1 without a FIN: injected clock ticks delayed the client's FIN past the
-			// handshake deadline, so the deadline applies (want is already connect+T)
-			if endAt < want || endAt > want+skew {
-				when := "the handshake deadline"
-				if p.didFin && p.behav == 1 {
-					when = "the client's FIN"
-				}
-				rc.Failf("probe-close-time:"+cls, "probe %d (%s): server closed at %v, expected %v (%s; connect at %v, timeout %v, injected clock skew %v)", p.k, p.desc, endAt, want, when, p.connectAt, srv.Timeout, skew)
+			// handshake deadline, so only the deadline applies.
+			deadline := p.connectAt + srv.Timeout
+			notBefore := deadline
+			if p.didFin && p.behav == 1 && p.finAt < deadline {
+				notBefore = p.finAt
+			}
+			if endAt < notBefore || endAt > deadline+skew {
+				rc.Failf("probe-close-time:"+cls, "probe %d (%s): server closed at %v, expected within [%v, %v] (client FIN at %v: %v; connect at %v, timeout %v, injected clock skew %v)", p.k, p.desc, endAt, notBefore, deadline+skew, p.finAt, p.didFin, p.connectAt, srv.Timeout, skew)
 			}
 			continue
 		}
 		// authenticated, then invalid / incomplete: must be drained, not closed, while the client is open
 		rc.Probe("postauth:" + p.postAuth + ":" + cls)
-		if n := len(srvEnd.Wrote); n != 0 {
-			rc.Failf("postauth-answered:"+p.postAuth, "probe %d (%s): server wrote %d bytes although the target never sent anything", p.k, p.desc, n)
-		}
-		if p.postAuth == "bad-address" {
-			for _, d := range w.Dials {
-				if d.Port == 8000+p.k {
-					rc.Failf("postauth-dialed:"+p.postAuth, "probe %d (%s): target dialed although the address header was unreadable", p.k, p.desc)
-				}
-			}
+		if p.postAuth == "incomplete" && p.behav != 2 && ended && !(gotRst && endAt == rstRecv) && len(srvEnd.Wrote) == 0 &&
+			endAt >= p.connectAt+srv.Timeout && endAt <= p.connectAt+srv.Timeout+skew && int(srvEnd.NRead) == p.sent {
+			// An intact header whose address chunk never arrives is an unfinished
+			// handshake, not a stream that turned invalid: giving up silently at the
+			// handshake deadline (first sentence of the statement) is as good as
+			// waiting for the client (what the repository does).
+			rc.Probe("incomplete_closed_at_handshake_deadline")
+			continue
 		}
 		if ended && (!p.didFin || endAt < p.finAt) {
+			if p.replayOf < 0 && !p.reflect && freshRefusalExcused(rc, p.key, p.wire) {
+				continue
+			}
 			how := "closed (FIN)"
 			if gotRst && endAt == rstRecv {
 				how = "reset (RST)"
@@ -428,6 +423,29 @@ func runC06(rc *RunCtx) {
 		if p.didFin && ended && endAt >= p.finAt && int(srvEnd.NRead) != p.sent && !gotRst {
 			rc.Failf("postauth-not-drained:"+p.postAuth, "probe %d (%s): server read %d of %d bytes", p.k, p.desc, srvEnd.NRead, p.sent)
 		}
+	}
+	// No unauthenticated input may cause a dial. Every probe names its own port:
+	// only a stream whose address chunk is intact (bad-chunk) dials, once; a
+	// replay carries its source's port, a reflected recording none (its
+	// recording connection dialed 8500+k once).
+	allowed := map[int]int{}
+	for _, p := range probes {
+		if p.auth && p.postAuth == "bad-chunk" && p.replayOf < 0 {
+			allowed[8000+p.k] = 1
+		}
+		if p.reflect {
+			allowed[8500+p.k] = 1
+		}
+	}
+	for _, d := range w.Dials {
+		if allowed[d.Port] == 0 {
+			cls := "other"
+			if k := d.Port - 8000; k >= 0 && k < len(probes) {
+				cls = probes[k].class
+			}
+			rc.Failf("probe-dialed:"+cls, "a target (port %d) was dialed although no input that authenticates and carries a readable address names it (or names it once only)", d.Port)
+		}
+		allowed[d.Port]--
 	}
 	srv.Stop()
 	simrt.Quiesce()
